@@ -623,8 +623,38 @@ def r10(F, rep):
     unique_rank(F, rep, "C13-R10")
 
 
+def r11(F, rep):
+    rep.rule("C13-R11", "parallel arrays are reset together: in every proxy class, each member container that a slot-adding function "
+                        "(add_*_slot) appends to is cleared by the class's reset(): a container left behind keeps stale "
+                        "entries in front of the ones appended later, so the arrays no longer line up by index (reference "
+                        "counts of atoms requested after a reset land on the wrong entries)")
+    n = 0
+    for cls in sorted({f.cls for f in F.funcs.values() if f.cls and f.cls.startswith("colvarproxy") and f.name.startswith("add_") and f.name.endswith("_slot")}):
+        pushed = {}
+        for f in F.funcs.values():
+            if f.cls == cls and f.name.startswith("add_") and f.name.endswith("_slot") and f.body is not None:
+                for c in X.calls(f):
+                    if c["k"] == "CXXMemberCallExpr" and X.callee_name(c) in ("push_back", "emplace_back") and X.receiver(c) is not None:
+                        k = X.key(X.receiver(c), f)
+                        if k.startswith("this.") and k.count(".") == 1:
+                            pushed.setdefault(k, f.q)
+        resets = [f for f in F.funcs.values() if f.cls == cls and f.name == "reset" and f.body is not None]
+        if not pushed or not resets:
+            continue
+        r = resets[0]
+        cleared = {X.key(X.receiver(c), r) for c in X.calls(r) if c["k"] == "CXXMemberCallExpr" and X.callee_name(c) == "clear" and X.receiver(c) is not None}
+        for k in sorted(pushed):
+            n += 1
+            ok = k in cleared
+            rep.add("C13-R11", "%s|%s" % (cls, X.re_strip(k)), r.loc(), "%s appends to `%s`; %s::reset() %s it" % (pushed[k], X.re_strip(k), cls, "clears" if ok else "does NOT clear"), ok,
+                    detail="after a reset the slot index returned by the next add_*_slot() no longer addresses the entry it appended to this container", func=r.q)
+    if n < 10:
+        raise AnalysisBroken("C13-R11: only %d slot containers found in the proxy classes" % n)
+
+
 def run(F, rep, tier):
     r9(F, rep)
+    r11(F, rep)
     r10(F, rep)
     r1(F, rep)
     r2(F, rep)
